@@ -64,6 +64,30 @@ Proof.
   rewrite <- app_assoc, !app_nil_r. reflexivity.
 Qed.
 
+(* the line of a property snippet, by the shape of its value list *)
+Lemma own_line_plain cfg key (prop : str) (v : cssvalue) others kws deps :
+  c_json cfg = false -> others = [] \/ has_field v = true ->
+  forallb (printable cfg) v = true -> Forall (unit_given cfg) v -> nobreakb (prop ++ c_between cfg) = true ->
+  own_line cfg (SnProp key prop ([v] :: others) kws deps) = prop ++ c_between cfg ++ wprint (abs cfg v) ++ c_after cfg.
+Proof.
+  intros Hj Hsingle Hp Hn Hb. unfold own_line.
+  assert (Hv : own_value cfg ([v] :: others) = [v]).
+  { unfold own_value. destruct others as [|o os]; [reflexivity|]. destruct Hsingle as [H|H]; [discriminate|].
+    cbn [existsb]. rewrite H. reflexivity. }
+  rewrite Hv. etransitivity; [exact (property_line cfg prop v Hj Hb Hn)|]. rewrite (value_print cfg v Hp). reflexivity.
+Qed.
+Lemma own_line_wrapped cfg key (prop : str) (v : cssvalue) o others kws deps :
+  c_json cfg = false -> forallb wrappable v = true -> nobreakb (prop ++ c_between cfg) = true ->
+  own_line cfg (SnProp key prop ([v] :: o :: others) kws deps) =
+  prop ++ c_between cfg ++ wprint (relabel (field_of cfg) (abs cfg v)) ++ c_after cfg.
+Proof.
+  intros Hj Hw Hb. unfold own_line.
+  assert (Hv : own_value cfg ([v] :: o :: others) = [wrap_with_field cfg v]).
+  { unfold own_value. cbn [existsb]. rewrite (wrappable_value_no_field v Hw). reflexivity. }
+  rewrite Hv. etransitivity; [exact (property_line cfg prop _ Hj Hb (wrapped_no_numbers cfg v 1))|].
+  pose proof (wrapped_print cfg v Hw) as W. unfold wrap_with_field in W. rewrite W. reflexivity.
+Qed.
+
 (* THEOREM: one alternative, or a first alternative with fields of its own: printed as written, unwrapped *)
 Theorem user_value_line_plain cfg sn key prop v others kws deps :
   name_ok key -> str_eqb key gradient_name = false -> c_context cfg = None -> c_json cfg = false ->
